@@ -33,19 +33,19 @@ static const uint32_t COBASE[2] = { 0x00000201u, 0x40000181u };
 #define K_CNT0 9
 #define K_MAP0 (K_CNT0 + NCNT)
 #define K_FILL0 (K_MAP0 + 3 * NMAPV)
-enum { E_START = 2 * EPP, E_PREOP, E_STOP, E_SYNC, E_EVT3, E_N };      /* E_SYNC, E_EVT3: cfg 8, 9 only */
+enum { E_START = 2 * EPP, E_PREOP, E_STOP, E_SYNC, E_EVT3, E_TICKS, E_N };      /* E_SYNC, E_EVT3: cfg 8..11; E_TICKS: cfg 10, 11 */
 static uint32_t idval(int pdo, int k)
 {
     uint32_t base = COB0(pdo);
     switch (k) { case 0: return base; case 1: return base | 0x80000000u; case 2: return base + 0x010; case 3: return (base + 0x010) | 0x80000000u; case 4: return base | 0x20000000u | 0x80000000u; default: return (base & ~0x40000000u) | 0x80000000u | (pdo ? 0 : 0x20000000u); }
 }
-static const char *cfg_name(int c) { static char b[64]; snprintf(b, sizeof b, "PDO pair #%d%s, %s", c < 2 ? 0 : c < 4 ? 1 : c < 6 ? 3 : 1, c >= 8 ? " (both synchronous, TPDO with inhibit time; SYNC and 18xxh:5 writes in the histories)" : c >= 6 ? " (both synchronous)" : "", c & 1 ? "started OPERATIONAL" : "PRE-OPERATIONAL"); return b; }
+static const char *cfg_name(int c) { static char b[64]; snprintf(b, sizeof b, "PDO pair #%d%s, %s", c < 2 ? 0 : c < 4 ? 1 : c < 6 ? 3 : 1, c >= 10 ? " (event-driven TPDO; SYNC, 18xxh:5 writes and time in the histories)" : c >= 8 ? " (both synchronous, TPDO with inhibit time; SYNC and 18xxh:5 writes in the histories)" : c >= 6 ? " (both synchronous)" : "", c & 1 ? "started OPERATIONAL" : "PRE-OPERATIONAL"); return b; }
 
 static int build(int cfg)
 {
     nc_defaults();
     NC.sync = 1; NC.sync_id = 0x80;
-    int sync0 = cfg >= 6;          /* cfg 6, 7: the pair under reconfiguration (#1) starts with both PDOs synchronous (type 1): they share one SYNC table */
+    int sync0 = cfg >= 6 && cfg < 10;          /* cfg 6, 7: the pair under reconfiguration (#1) starts with both PDOs synchronous (type 1): they share one SYNC table */
     PN = cfg < 2 ? 0 : cfg < 4 ? 1 : cfg < 6 ? 3 : 1;
     NC.n_rpdo = 4; NC.n_tpdo = 4;
     for (int i = 0; i < 4; i++) {
@@ -54,8 +54,8 @@ static int build(int cfg)
     }
     NC.tpdo[PN].event = 2;
     if (sync0) { NC.rpdo[PN].type = 1; NC.tpdo[PN].type = 1; }
-    INHIBIT_CFG = cfg >= 8;
-    if (cfg >= 8) NC.tpdo[PN].inhibit = 20;     /* 2 ms: every transmission of the TPDO under reconfiguration opens an inhibit window, and the histories write 18xxh:5 inside it */
+    INHIBIT_CFG = cfg >= 8 && cfg < 10;
+    if (INHIBIT_CFG) NC.tpdo[PN].inhibit = 20;     /* 2 ms: every transmission of the TPDO under reconfiguration opens an inhibit window, and the histories write 18xxh:5 inside it */
     NC.operational = cfg & 1;
     nc_build();
     (void)CONodeGetErr(&Node);
@@ -63,13 +63,13 @@ static int build(int cfg)
     M.op = (uint8_t)(cfg & 1);
     for (int i = 0; i < 2; i++) { M.p[i].cob = COB0(i); M.p[i].type = (uint8_t)(sync0 ? 1 : i ? 254 : 255); M.p[i].count = 1; M.p[i].map[0] = M8; }
     W_REG(M);
-    return cfg >= 8 ? E_N : E_N - 2;
+    return cfg >= 10 ? E_N : cfg >= 8 ? E_N - 1 : E_N - 3;
 }
 
 static const char *ev_name(int e)
 {
     static char b[64];
-    if (e >= E_START) return e == E_START ? "NMT start" : e == E_PREOP ? "NMT pre-op" : e == E_STOP ? "NMT stop" : e == E_SYNC ? "SYNC" : "SDO 18xxh:5=3 (accepted at any time)";
+    if (e >= E_START) return e == E_START ? "NMT start" : e == E_PREOP ? "NMT pre-op" : e == E_STOP ? "NMT stop" : e == E_SYNC ? "SYNC" : e == E_EVT3 ? "SDO 18xxh:5=3 (accepted at any time)" : "3 ticks pass";
     int pdo = e / EPP, k = e % EPP; uint16_t com = (uint16_t)((pdo ? 0x1800 : 0x1400) + PN), map = (uint16_t)((pdo ? 0x1A00 : 0x1600) + PN);
     if (k < 6) snprintf(b, sizeof b, "SDO %04Xh:1=%08X", com, idval(pdo, k));
     else if (k < 9) snprintf(b, sizeof b, "SDO %04Xh:2=%d", com, TYPV[k - 6]);
@@ -255,6 +255,7 @@ static int step(int e)
     else if (e == E_PREOP) { M.op = 0; STOPPED = 0; nc_nmt(128, 0); }
     else if (e == E_STOP) { M.op = 0; STOPPED = 1; nc_nmt(2, 0); }        /* entering OPERATIONAL from STOPPED activates the stored configuration like any other entry */
     else if (e == E_SYNC) { uint8_t none[8] = { 0 }; w_rx(&Node, 0x80, 0, none); }                 /* what is sent on it is C12's business; here it opens the inhibit window */
+    else if (e == E_TICKS) { for (int k = 0; k < 3; k++) w_tick(&Node, 1); }                         /* time passes in whatever NMT state the node is: event timers elapse also where nothing is sent */
     else if (STOPPED) return MC_SKIP;                                    /* no SDO service in STOPPED */
     else if (e == E_EVT3) { uint32_t r = nc_sdo_write((uint16_t)(0x1800 + PN), 5, 3, 2); if (r != 0) mc_fail("pdo-write-refused", "write of the event time 18%02Xh:5 refused with %08X", PN, r); }
     else {
@@ -280,5 +281,5 @@ static int step(int e)
     return MC_OK;
 }
 
-static const mc_harness H = { "C14", "c14", 10, cfg_name, build, ev_name, step, 12, 5 };
+static const mc_harness H = { "C14", "c14", 12, cfg_name, build, ev_name, step, 12, 5 };
 int main(int argc, char **argv) { return mc_main(argc, argv, &H); }
